@@ -54,6 +54,8 @@ def run(tier, seed, only, jobs):
         r.id = "C05.format.fpunchf_helper_complete_output"
         return r
     U = units_A(tier) + units_F(tier) + c05_table.units(tier) + c05_table.units2(tier) + [("C05.format.fpunchf_helper_complete_output", _fmt)]
+    from props.common import ext_units as _ext
+    U += _ext("C05")
     from props import c05_value as CV
     from props.common import wrap as _wrap
     _wrap(U, "C05.GetSelectedOutputValue.forwards_the_table_cell", CV.unit_get_value)
